@@ -21,10 +21,10 @@ from concurrent.futures import ProcessPoolExecutor, ThreadPoolExecutor
 VERIF = os.path.dirname(os.path.dirname(os.path.abspath(__file__)))
 REPO = os.environ.get("VERIF_REPO", "/repo")
 NCPU = int(os.environ.get("VERIF_JOBS", str(os.cpu_count() or 4)))
-WORK = os.path.join(VERIF, "work")
+WORK = os.environ.get("VERIF_WORK", os.path.join(VERIF, "work"))
 TARGET = os.path.join(VERIF, "target")
-EVIDENCE = os.path.join(VERIF, "evidence")
-REPLAY = os.path.join(VERIF, "work", "replay")
+EVIDENCE = os.environ.get("VERIF_EVIDENCE", os.path.join(VERIF, "evidence"))
+REPLAY = os.path.join(WORK, "replay")
 
 BASE_ENV = dict(os.environ)
 BASE_ENV.update({
